@@ -77,6 +77,10 @@ package traversal
 //   without a preloader there is one pass, charged to the caller's budget; every pass walks the
 //   same node with the same selector, callback and path
 //@   before walkAdv assert[C15] prog.Cfg.Preloader == nil ==> carg0.Budget == old(prog.Budget) && carg1 == phaseTraverse
+//   with a preloader there are two passes: the preload pass on the caller's budget and the real pass
+//   on the snapshot of it taken before — whether or not the preload pass ran out of budget
+//@   before walkAdv@0 assert[C15] prog.Cfg.Preloader != nil ==> carg1 == phasePreload && carg0.Budget == old(prog.Budget)
+//@   before walkAdv@1 assert[C15] carg1 == phaseTraverse && carg0.Budget == budget && (old(prog.Budget) != nil ==> budget != nil && budget != old(prog.Budget))
 //@   before walkAdv assert[C07,C15] carg2 == n && carg3 == s && carg4 == visitFn && carg0.Path == old(prog.Path) && carg0.Cfg == old(prog.Cfg) && carg0.SeenLinks == old(prog.SeenLinks)
 //@   assigns[C20] foreign, prog.Budget.NodeBudget, prog.Budget.LinkBudget, map(prog.SeenLinks), ghostall("io.Reader.pos"), ghostall("io.Writer.fed"), ghostall("io.Writer.fedof"), ghostall("linking.BlockWriteCommitter.calls")
 
